@@ -213,7 +213,7 @@ package keeper
 // Interest accrual of one borrow position (C08): principal, pledged collateral and identity of the position, every other
 // borrow, every lend position and the published pool totals are untouched - only accrued interest and its tracker move.
 //@ func (k Keeper) IterateBorrow
-//@   property C08
+//@   property C08, C18
 //@   modular
 //@   modifies lend
 //@   let b0 = k.GetBorrow(ctx, ID).0
@@ -225,6 +225,11 @@ package keeper
 //@   ensures #c08-accrual-lend-frame: result2 == nil ==> forall j :: k.GetLend(ctx, j) == old(k.GetLend(ctx, j))
 //@   ensures #c08-accrual-totals-frame: result2 == nil ==> forall p, a :: k.GetAssetStatsByPoolIDAndAssetID(ctx, p, a) == old(k.GetAssetStatsByPoolIDAndAssetID(ctx, p, a))
 //@   ensures #c08-accrual-config-frame: result2 == nil ==> (forall p :: k.GetLendPair(ctx, p) == old(k.GetLendPair(ctx, p))) && (forall p :: k.GetPool(ctx, p) == old(k.GetPool(ctx, p))) && (forall a :: k.GetAssetRatesParams(ctx, a) == old(k.GetAssetRatesParams(ctx, a)))
+//@   let secs = lendElapsed(blocktime(), b0.LastInteractionTime)
+//@   let pr0 = k.GetLendPair(ctx, b0.PairID).0
+//@   let vrate = k.GetBorrowAPRByAssetID(ctx, pr0.AssetOutPoolID, pr0.AssetOut, false).0
+//@   ensures [C18] #c18-stable-accrues-on-principal: result2 == nil && bf0 && b0.IsStableBorrow && blocktime() >= 0 && blocktime() <= pow2(62) && b0.LastInteractionTime >= 0 && b0.LastInteractionTime <= pow2(62) ==> b1.InterestAccumulated == b0.InterestAccumulated + decMul(decMul(b0.AmountOut.Amount * ONE, b0.StableBorrowRate), years(secs))
+//@   ensures [C18] #c18-variable-accrues-on-principal: result2 == nil && bf0 && !b0.IsStableBorrow && b0.GlobalIndex > 0 && b0.ReserveGlobalIndex > 0 && blocktime() >= 0 && blocktime() <= pow2(62) && b0.LastInteractionTime >= 0 && b0.LastInteractionTime <= pow2(62) ==> b1.InterestAccumulated == b0.InterestAccumulated + indexAccrual(b0.AmountOut.Amount * ONE, vrate, b0.GlobalIndex, secs)
 
 // Partial repayment (C08): the payer pays exactly the payment; whatever part of it retires principal lowers the published
 // borrowed total of the borrowed asset by the same amount (pool total minus this position's principal does not move); never
